@@ -831,7 +831,7 @@ func plainConstructor(fn *ssa.Function) bool {
 // boundedByInput: is the allocation size v dominated by a comparison with the bytes present in a buffer?
 func boundedByInput(v *Val, conds []Cond) (bool, string) {
 	v = stripCT(v)
-	if !v.Contains(func(x *Val) bool { return x.Op == "wire" || x.Op == "short" }) {
+	if !v.Contains(func(x *Val) bool { return x.Op == "wire" || x.Op == "short" || x.Op == "bufbytes" || x.Op == "bufnext" }) {
 		return true, "not derived from wire data"
 	}
 	// min(x, buf.Len())
